@@ -69,7 +69,7 @@ func (c c18) Generate(seed uint64, tier string, idx int) *core.Plan {
 	}
 	nk := r.Range(6, 20)
 	for i := 0; i < nk; i++ {
-		bits := r.Pick([]int{16, 17, 31, 32, 33, 127, 128, 512, 1023, 1024, 2047, 2048, 2049, 3072, 4096})
+		bits := r.Pick([]int{16, 17, 31, 32, 33, 127, 128, 512, 1023, 1024, 2047, 2048, 2049, 3072, 4096, 8192, 16383, 16384, 16385, 20000, 32768})
 		if r.Bool(40) {
 			bits = r.Range(16, 4096)
 		}
